@@ -75,28 +75,40 @@ def ITotal (W : Colls) (types : Types) (S : Nat → Prop) (m : Nat) : Prop :=
 theorem kTotal_of (m : Nat) (hi : ∀ m', m' + 1 = m → ITotal W types S m') : KTotal W types S m := by
   intro n d k t s hI hk hu hn
   obtain ⟨n', rfl⟩ : ∃ n', n = n' + 1 := ⟨n - 1, by omega⟩
-  rcases hk with lk | ⟨i, rfl, hsrc⟩
+  rcases hk with lk | ⟨w, i, rfl, hsrc⟩
   · obtain ⟨k', s', h1, _, h3⟩ := remapKind_leaf_total hW hs m (n' + 1) k lk t s hI.ti hu hn
     obtain ⟨a, b, _⟩ := (remapNest_spec hW hs (n' + 1)).2 d k s k' s' hI.ni (.inl lk) h1
     exact ⟨k', s', h1, ⟨a, by rw [b.cfg]; exact hI.cfg⟩, h3.toNKN⟩
   · cases m with
     | zero => simp [Types.unfoldKind] at hu
     | succ m' =>
-      cases hg : alGet s.agg.remapped (GTy.mk' types (.interface i)) with
-      | some ty =>
-        obtain ⟨i', rfl⟩ := hI.ni.ish i ty hg
-        refine ⟨.instance i', s, ?_, hI, NKN.refl _ _ _⟩
-        obtain ⟨n'', rfl⟩ : ∃ n'', n' = n'' + 1 := ⟨n' - 1, by omega⟩
-        cases d with
-        | zero => exact hsrc.elim
-        | succ d =>
-          obtain ⟨si, hsi, _, hid, _⟩ := hsrc
-          simp only [remapKind, run_bind]
-          rw [remapInterface]
-          simp only [hsi, run_bind, run_pure, run_getAgg, hid, run_remappedGet, hg]
-      | none =>
-        obtain ⟨id', s', h1, h2, h3⟩ := hi m' rfl n' d i t s hI hsrc hu (by omega) hg
-        exact ⟨.instance id', s', by simp only [remapKind, run_bind, h1, run_pure], h2, h3⟩
+      -- the instance tree under the wrapper
+      have hu0 : ∃ t0, types.unfoldKind (m' + 1) (.instance i) = some t0 := by
+        rw [unfoldKind_wrapK] at hu
+        cases hi' : types.interfaces[i]? with
+        | none => simp [hi'] at hu
+        | some itf =>
+          simp only [hi'] at hu
+          obtain ⟨F, hF, _⟩ := Option.map_eq_some_iff.1 hu
+          exact ⟨.instance F, by simp only [Types.unfoldKind, hi', hF, Option.map_some]⟩
+      obtain ⟨t0, hu0⟩ := hu0
+      have key : ∃ id' s', remapInterface n' types i s = .ok (id', s') ∧ TIN W types S s' ∧ NKN types (m' + 1) s s' := by
+        cases hg : alGet s.agg.remapped (GTy.mk' types (.interface i)) with
+        | some ty =>
+          obtain ⟨i', rfl⟩ := hI.ni.ish i ty hg
+          refine ⟨i', s, ?_, hI, NKN.refl _ _ _⟩
+          obtain ⟨n'', rfl⟩ : ∃ n'', n' = n'' + 1 := ⟨n' - 1, by omega⟩
+          cases d with
+          | zero => exact hsrc.elim
+          | succ d =>
+            obtain ⟨si, hsi, _, hid, _⟩ := hsrc
+            rw [remapInterface]
+            simp only [hsi, run_bind, run_pure, run_getAgg, hid, run_remappedGet, hg]
+        | none => exact hi m' rfl n' d i t0 s hI hsrc hu0 (by omega) hg
+      obtain ⟨id', s', h1, h2, h3⟩ := key
+      cases w with
+      | false => exact ⟨.instance id', s', by simp only [wrapK, remapKind, run_bind, h1, run_pure], h2, h3⟩
+      | true => exact ⟨.type (.interface id'), s', by simp only [wrapK, remapKind, run_bind, h1, run_pure], h2, h3⟩
 
 theorem iTotal_of (m : Nat) (hk : KTotal W types S m) (hprev : ∀ m', m' + 1 = m → ITotal W types S m') :
     ITotal W types S m := by
